@@ -37,7 +37,11 @@ EALGS = ["cose-alg-aes-gcm-128", "cose-alg-aes-gcm-192", "cose-alg-aes-gcm-256"]
 def _dg(tag, alg=None):
     """Digest description; the algorithm of ONE field per template is case-split over all five (quick: every template uses
     a different fixed algorithm elsewhere, so each of the five still occurs)."""
-    return {"suit-digest-algorithm-id": alg or CHOICE(f"alg_{tag}", *(ALG if THOROUGH or tag == "img" else ALG[hash_index(tag): hash_index(tag) + 1])), "suit-digest-bytes": HEXSTR(f"dg_{tag}")}
+    # thorough: ONE shared case split per template over the five algorithms (all digest fields of the template use the chosen one,
+    # 5 paths - not the 5**k product), except `img`, which is split on its own in both tiers
+    if alg is None:
+        alg = CHOICE("alg_img", *ALG) if tag == "img" else (CHOICE("alg_all", *ALG) if THOROUGH else ALG[hash_index(tag)])
+    return {"suit-digest-algorithm-id": alg, "suit-digest-bytes": HEXSTR(f"dg_{tag}")}
 
 
 def hash_index(tag):
